@@ -11,7 +11,10 @@ process can die are made observable by wrapping the OS-facing primitives the cac
 sendfile/copy_file_range/truncate`)
 for paths under the scenario's cache directory only.  The wrappers are protocol agnostic: they know
 nothing about how `_pickle_save` is written.  Files opened for writing are opened UNBUFFERED, so the
-bytes on disk at the crash instant are exactly the bytes written so far.
+bytes on disk at the crash instant are exactly the bytes written so far; a scenario with
+"buffered": true instead keeps written bytes in a user-space buffer until flush()/close() (what
+io.BufferedWriter does for payloads below its buffer size), so a process dying between a write and the
+close leaves NONE of them in the file -- the two modes bracket what a real interpreter can leave behind.
 
 A crash plan  {"match": prefix, "event": i, "byte": j, "action": "exit"|"killpg"}  means: in the
 process whose i-th event on a path (relative to the cache dir) starting with `prefix` is reached,
@@ -50,6 +53,7 @@ PLAN: dict | None = None
 EVLOG: str | None = None
 CALLLOG: str | None = None
 COUNTER = [0]
+BUFFERED = [False]  # scenario option: writes stay in a user-space buffer until flush/close (as io.BufferedWriter does)
 
 
 def _raw_append(path: str, line: str) -> None:
@@ -109,10 +113,17 @@ class _FileProxy:
     def __init__(self, raw, rel: str) -> None:
         self._raw = raw
         self._rel = rel
+        self._buf = bytearray() if BUFFERED[0] else None
 
     def write(self, data) -> int:
         b = bytes(data)
         j = _event("write", self._rel, len(b))
+        if self._buf is not None:
+            # buffered mode: nothing reaches the file before flush/close, whatever part was "written"
+            if j is not None:
+                _crash()
+            self._buf += b
+            return len(b)
         if j is not None:
             self._write_all(b[:j])
             _crash()
@@ -128,9 +139,16 @@ class _FileProxy:
     def close(self) -> None:
         if not self._raw.closed:
             _event("close", self._rel)
+            self._drain()
             self._raw.close()
 
+    def _drain(self) -> None:
+        if self._buf:
+            self._write_all(bytes(self._buf))
+            self._buf.clear()
+
     def flush(self) -> None:
+        self._drain()
         self._raw.flush()
 
     def __enter__(self):
@@ -465,6 +483,7 @@ def run_scenario(sc: dict) -> dict:
                 os.dup2(devnull, 1)
             CACHE_DIR = os.path.abspath(sc["cache_dir"])
             PLAN = sc.get("plan")
+            BUFFERED[0] = bool(sc.get("buffered"))
             EVLOG, CALLLOG = evlog, calllog
             COUNTER[0] = 0
             try:
